@@ -996,6 +996,51 @@ def ReadFirst (p : Proc N) (prog : List (Instr N)) (s : SimState N) : Prop :=
     ∀ x ∈ (fillCycle p prog s.util s.entered).1.get u.name,
       wasLoaded (s.util.get u.name) x.idx = false → grantedB p s.table false x.idx = true
 
+/-- **The dequeues of one cycle, register by register, at request level**: removing the owners of the granted requests
+in encounter order never fails and removes exactly the granted requests. -/
+theorem rowReqs_batch {p : Proc N} {prog : List (Instr N)} (hwf : wfProc p = true) {s : SimState N}
+    (hc : CoreInv p prog s) (hinv : PlanInv p prog s) (hrf : ReadFirst p prog s) (r : N) :
+    runSpec (abs (s.queues.get r))
+      ((rowReqs p.allUnits prog s.queues s.util (fillCycle p prog s.util s.entered).1 r).map (·.2)) =
+      some ((abs (s.queues.get r)).filter
+        (fun x => decide (x ∉ rowReqs p.allUnits prog s.queues s.util (fillCycle p prog s.util s.entered).1 r))) := by
+  have hn := wfProc_nodup_names hwf
+  have hFb := hc.row.after_fillCycle hn prog
+  have hFnd := hc.nd.after_fillCycle hc.row hn (wfProc_preds_nodup hwf) (wfProc_self_not_pred hwf) prog
+  have hk := hFb.keys_nodup
+  exact runSpec_batch (hinv.sorted r).nodup
+    (rowReqs p.allUnits prog s.queues s.util (fillCycle p prog s.util s.entered).1 r)
+    (rowReqs_nodup _ _ _ _ hk hFnd r)
+    (fun x hx => by rw [← canAccess_refines (hinv.wf r)]; exact rowReqs_servable hn hk hx)
+    (by
+      intro o ho hpend
+      obtain ⟨u, hu, ⟨h, hh, hidx⟩, hl, hlock, ins, hins, hacc⟩ := (mem_rowReqs hn hk).1 ho
+      simp only at hidx hl hlock hins hacc
+      obtain ⟨hreq, hng⟩ := hinv.mem_abs.1 hpend
+      obtain ⟨ins', hins', hsrc⟩ := mem_reqsOf.1 hreq
+      simp only at hins' hsrc hng
+      rw [hins] at hins'; cases hins'
+      have hsrc' : r ∈ ins.srcs := by simpa using hsrc
+      have hacc' : ins.dst = r := by simpa using hacc
+      have hwr : u.wr = true := by simpa [lockOf] using hlock
+      cases hrd : u.rd with
+      | false =>
+        have hwl := ((labelOf_U_iff _ _ _ _ _).1 hl).1
+        have := hrf u hu hwr hrd h hh (by rw [hidx]; exact hwl)
+        rw [hidx, hng] at this; cases this
+      | true =>
+        have e1 : instrReqs prog s.queues u (s.util.get u.name) r h.idx = [(false, o), (true, o)] := by
+          unfold instrReqs
+          rw [hidx]
+          simp [hl, hins, hrd, hwr, hsrc', hacc']
+        rw [← e1]
+        have hne : (fillCycle p prog s.util s.entered).1.get u.name ≠ [] := fun e => by rw [e] at hh; cases hh
+        refine (List.Sublist.trans ?_
+          (sublist_flatMap_of_mem (entryReqs p.allUnits prog s.queues s.util r) (Util.mem_of_get_ne_nil hne)))
+        unfold entryReqs
+        simp only [lookupUnit_of_mem hn hu]
+        exact sublist_flatMap_of_mem (fun x => instrReqs prog s.queues u (s.util.get u.name) r x.idx) hh)
+
 /-- **The queue invariant is preserved by a cycle.** In particular no `dequeue` of the cycle fails or removes a request
 other than the one granted. -/
 theorem PlanInv.step {p : Proc N} {prog : List (Instr N)} (hwf : wfProc p = true) (hprog : ProgOK prog)
@@ -1016,38 +1061,7 @@ theorem PlanInv.step {p : Proc N} {prog : List (Instr N)} (hwf : wfProc p = true
     have href := runHistory_refines (hinv.wf r)
       ((rowReqs p.allUnits prog s.queues s.util (fillCycle p prog s.util s.entered).1 r).map (·.2))
     rw [hrun] at href
-    have hbatch := runSpec_batch (hinv.sorted r).nodup
-      (rowReqs p.allUnits prog s.queues s.util (fillCycle p prog s.util s.entered).1 r)
-      (rowReqs_nodup _ _ _ _ hk hFnd r)
-      (fun x hx => by rw [← canAccess_refines (hinv.wf r)]; exact rowReqs_servable hn hk hx)
-      (by
-        intro o ho hpend
-        obtain ⟨u, hu, ⟨h, hh, hidx⟩, hl, hlock, ins, hins, hacc⟩ := (mem_rowReqs hn hk).1 ho
-        simp only at hidx hl hlock hins hacc
-        obtain ⟨hreq, hng⟩ := hinv.mem_abs.1 hpend
-        obtain ⟨ins', hins', hsrc⟩ := mem_reqsOf.1 hreq
-        simp only at hins' hsrc hng
-        rw [hins] at hins'; cases hins'
-        have hsrc' : r ∈ ins.srcs := by simpa using hsrc
-        have hacc' : ins.dst = r := by simpa using hacc
-        have hwr : u.wr = true := by simpa [lockOf] using hlock
-        cases hrd : u.rd with
-        | false =>
-          have hwl := ((labelOf_U_iff _ _ _ _ _).1 hl).1
-          have := hrf u hu hwr hrd h hh (by rw [hidx]; exact hwl)
-          rw [hidx, hng] at this; cases this
-        | true =>
-          have e1 : instrReqs prog s.queues u (s.util.get u.name) r h.idx = [(false, o), (true, o)] := by
-            unfold instrReqs
-            rw [hidx]
-            simp [hl, hins, hrd, hwr, hsrc', hacc']
-          rw [← e1]
-          have hne : (fillCycle p prog s.util s.entered).1.get u.name ≠ [] := fun e => by rw [e] at hh; cases hh
-          refine (List.Sublist.trans ?_
-            (sublist_flatMap_of_mem (entryReqs p.allUnits prog s.queues s.util r) (Util.mem_of_get_ne_nil hne)))
-          unfold entryReqs
-          simp only [lookupUnit_of_mem hn hu]
-          exact sublist_flatMap_of_mem (fun x => instrReqs prog s.queues u (s.util.get u.name) r x.idx) hh)
+    have hbatch := rowReqs_batch hwf hc hinv hrf r
     rw [hbatch] at href
     simpa using href
   refine ⟨fun r => (main r).1, fun r => ?_⟩
@@ -1434,19 +1448,17 @@ theorem HazInv.step {p : Proc N} {prog : List (Instr N)} (hwf : wfProc p = true)
     cases hw : wasLoaded (s.util.get u.name) y.idx <;> simp [hl, hw] at hS ⊢ <;>
     cases L <;> cases W <;> rfl
 
-/-- **What is known when an instruction is examined** (hosted in the next record and not yet loaded in its unit): no
-access of a kind its unit locks has been granted to it before, and in a unit holding only the write lock its read access
-has been granted. -/
-theorem examined_facts {p : Proc N} {prog : List (Instr N)} (hwf : wfProc p = true) {s : SimState N}
-    (hc : CoreInv p prog s) (hh : HazInv p prog s) {u : UnitM N} (hu : u ∈ p.allUnits) {x : HI}
-    (hx : x ∈ (fillCycle p prog s.util s.entered).1.get u.name)
-    (hwl : wasLoaded (s.util.get u.name) x.idx = false) :
-    (u.rd = true → grantedB p s.table false x.idx = false) ∧
-    (u.wr = true → grantedB p s.table true x.idx = false) ∧
-    (u.wr = true → u.rd = false → grantedB p s.table false x.idx = true) := by
-  have hn := wfProc_nodup_names hwf
-  have hF := fillCycle_issueInv prog s.util s.entered hn (wfProc_orderOK hwf)
-  obtain ⟨ins, w, hins, hwalk, hstart, hg⟩ := origin_walk hwf hc hh hu (hF.origin u.name x hx)
+/-- **What is known when an instruction is examined** (it has an origin in unit `u` of the next record and is not yet
+loaded there): no access of a kind its unit locks has been granted to it before, and in a unit holding only the write
+lock its read access has been granted. -/
+theorem examined_facts_origin {p : Proc N} {prog : List (Instr N)} (hwf : wfProc p = true) {s : SimState N}
+    (hc : CoreInv p prog s) (hh : HazInv p prog s) {u : UnitM N} (hu : u ∈ p.allUnits) {i e' : Nat}
+    (ho : Stayed p s.util u.name i ∨ Moved p prog s.util u.name i ∨ Issued p prog s.entered e' u.name i)
+    (hwl : wasLoaded (s.util.get u.name) i = false) :
+    (u.rd = true → grantedB p s.table false i = false) ∧
+    (u.wr = true → grantedB p s.table true i = false) ∧
+    (u.wr = true → u.rd = false → grantedB p s.table false i = true) := by
+  obtain ⟨ins, w, hins, hwalk, hstart, hg⟩ := origin_walk hwf hc hh hu ho
   obtain ⟨h1, h2, h3⟩ := walk_locks hwf hwalk hstart
   have e1 : w.any (lockOf false) = w.any (·.rd) := rfl
   have e2 : w.any (lockOf true) = w.any (·.wr) := rfl
@@ -1454,6 +1466,16 @@ theorem examined_facts {p : Proc N} {prog : List (Instr N)} (hwf : wfProc p = tr
   · rw [hg false, hwl, e1, h1 hr]; simp
   · rw [hg true, hwl, e2, h2 hw]; simp
   · rw [hg false, hwl, e1, h3 hw hr]; simp
+
+theorem examined_facts {p : Proc N} {prog : List (Instr N)} (hwf : wfProc p = true) {s : SimState N}
+    (hc : CoreInv p prog s) (hh : HazInv p prog s) {u : UnitM N} (hu : u ∈ p.allUnits) {x : HI}
+    (hx : x ∈ (fillCycle p prog s.util s.entered).1.get u.name)
+    (hwl : wasLoaded (s.util.get u.name) x.idx = false) :
+    (u.rd = true → grantedB p s.table false x.idx = false) ∧
+    (u.wr = true → grantedB p s.table true x.idx = false) ∧
+    (u.wr = true → u.rd = false → grantedB p s.table false x.idx = true) :=
+  examined_facts_origin hwf hc hh hu
+    ((fillCycle_issueInv prog s.util s.entered (wfProc_nodup_names hwf) (wfProc_orderOK hwf)).origin u.name x hx) hwl
 
 theorem HazInv.readFirst {p : Proc N} {prog : List (Instr N)} (hwf : wfProc p = true) {s : SimState N}
     (hc : CoreInv p prog s) (hh : HazInv p prog s) : ReadFirst p prog s :=
@@ -1656,6 +1678,93 @@ theorem ordered_of_conflict {p : Proc N} {prog : List (Instr N)} (hwf : wfProc p
   have := older_granted hn hinv.plan hk hx hi hij hconf
   rw [htab, grantedB_reverse] at this
   exact this
+
+/-- **Row view**: row `t` of a diagram is the labelling, against the queues of a `HazardInv` state whose table holds
+the rows before `t`, of that state's filled record. -/
+theorem row_view {p : Proc N} {prog : List (Instr N)} (hwf : wfProc p = true) (hprog : ProgOK prog)
+    {tbl : List (Util N)} {stalled : Bool} (hd : Diagram p prog tbl stalled) {t : Nat} (ht : t < tbl.length) :
+    ∃ s lab qs, HazardInv p prog s ∧ s.table = (tbl.take t).reverse ∧
+      labelAll p.allUnits prog s.queues s.util (fillCycle p prog s.util s.entered).1 = .ok lab ∧
+      applyClears s.queues lab.2 = .ok qs ∧ tbl.getD t ([] : List (N × List HI)) = lab.1 := by
+  obtain ⟨s, s', hinv, htab, hrun, hutil, _⟩ := Diagram_hazard_rows hwf hprog hd ht
+  obtain ⟨lab, qs, hlab, hclr, _, e⟩ := runCycle_eq_some hrun
+  subst e
+  exact ⟨s, lab, qs, hinv, htab, hlab, hclr, hutil.symm⟩
+
+/-- a label of row `t`: the instruction is hosted in the filled record and the label is `labelOf` -/
+theorem label_view {p : Proc N} {prog : List (Instr N)} (hwf : wfProc p = true) {s : SimState N}
+    {lab : Util N × List (N × Nat)}
+    (hlab : labelAll p.allUnits prog s.queues s.util (fillCycle p prog s.util s.entered).1 = .ok lab)
+    {u : UnitM N} (hu : u ∈ p.allUnits) {i : Nat} {l : Stall} (hm : (⟨i, l⟩ : HI) ∈ lab.1.get u.name) :
+    (∃ y ∈ (fillCycle p prog s.util s.entered).1.get u.name, y.idx = i) ∧
+      l = labelOf prog s.queues u (s.util.get u.name) i := by
+  obtain ⟨y, hy, e⟩ := (mem_labelled (wfProc_nodup_names hwf) hlab hu).1 hm
+  injection e with e1 e2
+  subst e1
+  exact ⟨⟨y, hy, rfl⟩, e2⟩
+
+/-- when an access is shown in row `t`, it is not shown in any earlier row -/
+theorem acc_fresh {p : Proc N} {prog : List (Instr N)} (hwf : wfProc p = true) (hprog : ProgOK prog)
+    {tbl : List (Util N)} {stalled : Bool} (hd : Diagram p prog tbl stalled) {k : Bool} {i t : Nat}
+    (ht : t ∈ (ctx p prog tbl stalled).accs k i) : (ctx p prog tbl stalled).doneBefore k i t = false := by
+  obtain ⟨hT, hacc⟩ := (mem_accs_iff _ _ _ _).1 ht
+  have hT' : t < tbl.length := hT
+  obtain ⟨s, lab, qs, hinv, htab, hlab, _, hrow⟩ := row_view hwf hprog hd hT'
+  have hrow' : (ctx p prog tbl stalled).row t = lab.1 := hrow
+  rw [hrow'] at hacc
+  obtain ⟨u, hu, hlock, hm⟩ := accIn_iff.1 hacc
+  obtain ⟨⟨y, hy, hyi⟩, hl⟩ := label_view hwf hlab hu hm
+  have hwl := ((labelOf_U_iff _ _ _ _ _).1 hl.symm).1
+  have hex := examined_facts hwf hinv.core hinv.host hu hy (by rw [hyi]; exact hwl)
+  rw [doneBefore_eq, ← grantedB_reverse, ← htab, ← hyi]
+  cases k with
+  | false => exact hex.1 (by simpa using hlock)
+  | true => exact hex.2.1 (by simpa using hlock)
+
+/-- **every access is performed at most once** -/
+theorem accs_unique {p : Proc N} {prog : List (Instr N)} (hwf : wfProc p = true) (hprog : ProgOK prog)
+    {tbl : List (Util N)} {stalled : Bool} (hd : Diagram p prog tbl stalled) {k : Bool} {i t1 t2 : Nat}
+    (h1 : t1 ∈ (ctx p prog tbl stalled).accs k i) (h2 : t2 ∈ (ctx p prog tbl stalled).accs k i) : t1 = t2 := by
+  have key : ∀ a b, a ∈ (ctx p prog tbl stalled).accs k i → b ∈ (ctx p prog tbl stalled).accs k i → ¬ a < b := by
+    intro a b ha hb hlt
+    have := acc_fresh hwf hprog hd hb
+    unfold Ctx.doneBefore at this
+    rw [List.any_eq_false] at this
+    exact this a ha (by simpa using hlt)
+  have := key t1 t2 h1 h2
+  have := key t2 t1 h2 h1
+  omega
+
+/-- **an instruction's read access is never after its write access** -/
+theorem read_le_write {p : Proc N} {prog : List (Instr N)} (hwf : wfProc p = true) (hprog : ProgOK prog)
+    {tbl : List (Util N)} {stalled : Bool} (hd : Diagram p prog tbl stalled) {i tr tw : Nat}
+    (hr : tr ∈ (ctx p prog tbl stalled).accs false i) (hw : tw ∈ (ctx p prog tbl stalled).accs true i) : tr ≤ tw := by
+  obtain ⟨hT, hacc⟩ := (mem_accs_iff _ _ _ _).1 hw
+  have hT' : tw < tbl.length := hT
+  obtain ⟨s, lab, qs, hinv, htab, hlab, _, hrow⟩ := row_view hwf hprog hd hT'
+  have hrow' : (ctx p prog tbl stalled).row tw = lab.1 := hrow
+  rw [hrow'] at hacc
+  obtain ⟨u, hu, hlock, hm⟩ := accIn_iff.1 hacc
+  have huw : u.wr = true := by simpa using hlock
+  cases hur : u.rd with
+  | true =>
+    have : tw ∈ (ctx p prog tbl stalled).accs false i := by
+      rw [mem_accs_iff]
+      refine ⟨hT, ?_⟩
+      rw [hrow', accIn_iff]
+      exact ⟨u, hu, by simpa using hur, hm⟩
+    exact Nat.le_of_eq (accs_unique hwf hprog hd hr this)
+  | false =>
+    obtain ⟨⟨y, hy, hyi⟩, hl⟩ := label_view hwf hlab hu hm
+    have hwl := ((labelOf_U_iff _ _ _ _ _).1 hl.symm).1
+    have hex := (examined_facts hwf hinv.core hinv.host hu hy (by rw [hyi]; exact hwl)).2.2 huw hur
+    rw [hyi, htab, grantedB_reverse, ← doneBefore_eq p prog tbl stalled] at hex
+    unfold Ctx.doneBefore at hex
+    rw [List.any_eq_true] at hex
+    obtain ⟨t', ht', hlt⟩ := hex
+    have := accs_unique hwf hprog hd hr ht'
+    have hlt' : t' < tw := by simpa using hlt
+    omega
 
 end Hazards
 end ProcSim
